@@ -239,6 +239,15 @@ def candidates (cfg : Config) (insts : List Nat) : List Step :=
 def enabled (cfg : Config) (insts : List Nat) (s : State) : List Step :=
   (candidates cfg insts).filter (fun a => (step cfg s a).isSome)
 
+/-- the instances any caller's application selects -/
+def instsOf (cfg : Config) : List Nat := cfg.callers.map (fun sp => cfg.select sp.app)
+
+/-- no step over the configuration's callers / instances / workers is enabled (a complete schedule ends here) -/
+def stuck (cfg : Config) (s : State) : Bool := (enabled cfg (instsOf cfg) s).isEmpty
+
+/-- how many times caller `c` has been answered -/
+def nAnswers (s : State) (c : Nat) : Nat := (s.answers.filter (fun a => a.1 == c)).length
+
 /-- pseudo-random maximal schedule: at most `fuel` steps, each picked among the enabled ones by an LCG -/
 def randomRun (cfg : Config) (insts : List Nat) : Nat → Nat → State → List Step → State × List Step
   | 0, _, s, acc => (s, acc.reverse)
